@@ -607,10 +607,11 @@ impl ExecutableContent for SendParameters {
             return false;
         }
 
-        let target_guard = target.lock().unwrap();
-        if delay_ms > 0 && target_guard.to_string().eq(SCXML_TARGET_INTERNAL) {
+        // Take a copy instead of holding the lock: type and event may evaluate to the same value object.
+        let target_data = target.lock().unwrap().clone();
+        if delay_ms > 0 && target_data.to_string().eq(SCXML_TARGET_INTERNAL) {
             // Can't send via internal queue
-            error!("Send: illegal delay for target {}", target_guard);
+            error!("Send: illegal delay for target {}", target_data);
             datamodel.internal_error_execution_for_event(&send_id, &fsm.caller_invoke_id);
             return false;
         }
@@ -655,7 +656,7 @@ impl ExecutableContent for SendParameters {
                 debug!("schedule '{}' for {}", event, delay_ms);
                 let global_clone = datamodel.global_s().clone();
                 let send_id_clone = send_id.clone();
-                let target_str = target_guard.to_string();
+                let target_str = target_data.to_string();
                 let tg = fsm.schedule(delay_ms, move || {
                     if let Some(sid) = &send_id_clone {
                         global_clone.lock().unwrap().delayed_send.remove(sid);
@@ -683,8 +684,8 @@ impl ExecutableContent for SendParameters {
             }
         } else {
             #[cfg(feature = "Debug")]
-            debug!("send '{}' to '{}'", event, target_guard);
-            datamodel.send(type_val_str, &target_guard, event.clone())
+            debug!("send '{}' to '{}'", event, target_data);
+            datamodel.send(type_val_str, &target_data, event.clone())
         };
 
         if !result {
